@@ -405,6 +405,13 @@ where
             .into()),
         }
     }
+
+    // speedy only trusts a collection length as far as `length * minimum_bytes_needed`
+    // bytes are available: the smallest need is `Empty { ts: None }` (tag + option flag)
+    #[inline]
+    fn minimum_bytes_needed() -> usize {
+        2
+    }
 }
 
 impl<C> Writable<C> for SyncNeedV1
